@@ -362,6 +362,11 @@ fn eval_conf(job: &Job) -> JobResult {
 
 fn eval_c04(job: &Job) -> JobResult {
     let p = &job.program;
+    if p.threads.iter().flatten().any(|o| matches!(o.k, K::CellBegin { .. })) {
+        // accesses that stay open across other operations: several kinds of failure are
+        // possible (race, overlap); verdict membership + outcome equality
+        return eval_conf(job);
+    }
     let mut res = JobResult::default();
     let expected_race: bool;
     let mut other_bad = false;
